@@ -37,7 +37,8 @@ PROBES = ["split_remainder_nonzero", "insufficient_funds_refused", "less_than_on
           "fee_standard", "validate_refused_lie", "validate_returned_fee", "validate_raised_under_fault", "cache_hit",
           "cache_roundtrip_bytes", "torn_cache_file_read", "provider_lookup_cached", "observed_stuck_after_heal",
           "observed_txdb_returned_unrequested_tx", "spendable_form_text", "spendable_form_dict", "display_roundtrip",
-          "attach_unspents", "fee_after_in_place_edit"]
+          "attach_unspents", "fee_after_in_place_edit", "validate_against_unfiltered_source", "validate_against_plain_dict",
+          "validate_refused_colluding_source", "attach_left_unknown"]
 
 CACHE = "/wallet/cache"
 
@@ -133,13 +134,13 @@ def gen_plan(rng, tier, index, config=None):
                           "lock_time": r.pick([0, 0, 500000]), "version": r.pick([1, 1, 2])})
             nbuilt += 1
         elif op == "validate":
-            steps.append({"op": "validate", "tx": "x%d" % r.below(nbuilt)})
+            steps.append({"op": "validate", "tx": "x%d" % r.below(nbuilt), "db": r.weighted([("txdb", 5), ("raw", 3 if faulty else 1), ("dict", 1)])})
         elif op == "edit":
             steps.append({"op": "edit", "tx": "x%d" % r.below(nbuilt), "how": r.pick(["unspent_value_inplace", "unspent_replace", "out_value",
                                                                                      "set_unspents_same_list"]),
                           "i": r.bits(8), "delta": r.pick([1, -1, 7, 1000, -1000, 30000])})
         elif op == "attach":
-            steps.append({"op": "attach", "tx": "x%d" % r.below(nbuilt)})
+            steps.append({"op": "attach", "tx": "x%d" % r.below(nbuilt), "ignore_missing": r.chance(0.4)})
         elif op == "fetch":
             steps.append({"op": "fetch", "tx": "t%d" % r.below(ntx)} if r.chance(0.9) else {"op": "fetch", "hash": r.bytes(32).hex()})
         elif op == "put":
@@ -174,6 +175,20 @@ def gen_plan(rng, tier, index, config=None):
             steps.append({"op": "db_new", "cache": True, "providers": [0] if r.chance(0.6) else [0, 1]})
         else:
             steps.append({"op": "db_new", "cache": r.chance(0.85), "providers": [0] if r.chance(0.6) else [0, 1]})
+    if faulty and r.chance(0.12):
+        # a provider and a spendable report that tell the same lie: only the id of the returned transaction gives it away
+        t = "t%d" % ntx
+        k = r.between(1, 3)
+        steps.append({"op": "mint", "id": t, "tx": {"version": 1, "ins": [{"prev": r.bytes(32).hex(), "idx": 0, "script": "", "seq": 0xFFFFFFFF,
+                                                                             "witness": []}],
+                                                    "outs": [{"value": _amount(r), "key": r.below(len(keys))} for _ in range(k)], "locktime": 0}})
+        ntx += 1
+        steps.append({"op": "provider", "p": 0, "mode": "tamper"})
+        steps.append({"op": "provider", "p": 1, "mode": "tamper"})
+        steps.append({"op": "build", "id": "x%d" % nbuilt, "spend": [{"tx": t, "idx": 0, "lie": {"kind": "amount", "delta": 1000}, "form": "obj"}],
+                      "pay": [[r.below(len(keys)), None, "bare"]], "fee": r.pick([0, 1000]), "lock_time": 0, "version": 1})
+        steps.append({"op": "validate", "tx": "x%d" % nbuilt, "db": r.pick(["raw", "raw", "txdb"])})
+        nbuilt += 1
     if faulty and nbuilt and r.chance(0.5):
         # heal: faults stop, providers honest; does the wallet recover? (observation only)
         steps.append({"op": "provider", "p": 0, "mode": "honest"})
@@ -566,26 +581,52 @@ def _discrepancy(W, rec):
     return False
 
 
+class _RawDb(object):
+    """what a caller passes when it has no TxDb: anything with get(); here the providers, unfiltered"""
+
+    def __init__(self, lookups):
+        self.lookups = lookups
+        self.lookup_methods = lookups
+
+    def get(self, key):
+        for f in self.lookups:
+            t = f(key)
+            if t is not None:
+                return t
+        return None
+
+
 def _op_validate(ctx, W, st):
     ent = W.built.get(st["tx"])
     if ent is None or W.db is None:
         return
     tx, rec, outs = ent
     lie = _discrepancy(W, rec)
+    db = W.db
+    kind = st.get("db", "txdb")
+    if kind == "raw":
+        db = _RawDb([_provider(W, ctx, p) for p in sorted(W.providers)])
+        ctx.probe("validate_against_unfiltered_source")
+    elif kind == "dict":
+        from pycoin.coins.bitcoin.Tx import Tx
+        db = {h: Tx.from_bin(e[1]) for h, e in W.by_hash.items()}
+        ctx.probe("validate_against_plain_dict")
     armed = bool(W.fs.open_error or W.fs.read_fail_after is not None or W.fs.write_fail_after is not None)
     if lie or W.dirty:
         ctx.nontrivial = True
-    ctx.sig("%s|%s|cache%d|files%d|lie%d|in%d" % (sorted(W.providers.items()), bool(W.db.writable_cache_path), len(W.fs.files) > 0,
-                                                    min(len(W.fs.files), 5), lie, len(rec)))
+    ctx.sig("%s|%s|%s|cache%d|files%d|lie%d|in%d" % (kind, sorted(W.providers.items()), bool(W.db.writable_cache_path), len(W.fs.files) > 0,
+                                                       min(len(W.fs.files), 5), lie, len(rec)))
     try:
-        fee = tx.validate_unspents(W.db)
+        fee = tx.validate_unspents(db)
     except Exception as e:
         ctx.obs("validate", "raised", type(e).__name__)
         if lie:
             ctx.probe("validate_refused_lie")
-        elif W.dirty or armed:
+            if kind == "raw" and any(m == "tamper" for m in W.providers.values()):
+                ctx.probe("validate_refused_colluding_source")
+        elif (W.dirty or armed) and kind != "dict":
             ctx.probe("validate_raised_under_fault")
-        elif W.db.lookup_methods:
+        elif kind == "dict" or W.db.lookup_methods:
             ctx.violate("C13", "validate-refused-honest-spendables", {"exc": type(e).__name__, "msg": str(e)[:200]})
         return
     ctx.obs("validate", fee)
@@ -651,6 +692,29 @@ def _op_attach(ctx, W, st):
     t2 = copy.deepcopy(tx)
     t2.unspents = []
     ctx.probe("attach_unspents")
+    if st.get("ignore_missing"):
+        # spent outputs the source cannot supply stay unknown: no fee is reported and the input is never valid
+        try:
+            t2.unspents_from_db(W.db, ignore_missing=True)
+        except Exception as e:
+            ctx.obs("attach", "raised", type(e).__name__)
+            return
+        truth = [_truth(W, h, i) for _, _, h, i in rec]
+        unknown = [j for j, u in enumerate(t2.unspents) if u is None]
+        ctx.obs("attach", "ignore_missing", unknown)
+        for j, u in enumerate(t2.unspents):
+            if u is not None and (truth[j] is None or (u.coin_value, bytes(u.script)) != truth[j]):
+                ctx.violate("C13", "unspents-from-db-wrong-output", {"input": j, "ignore_missing": True})
+                return
+        if unknown:
+            ctx.probe("attach_left_unknown")
+            ctx.nontrivial = True
+            try:
+                f = t2.fee()
+                ctx.violate("C13", "fee-reported-with-unknown-input", {"fee": f, "unknown": unknown})
+            except Exception:
+                pass
+        return
     try:
         t2.unspents_from_db(W.db)
         fee = t2.fee()
